@@ -196,10 +196,39 @@ def run_check(check_name, tier="quick", jobs=None, only=None):
         for c in cases:
             results.append(_worker_run(c))
     else:
+        # ProcessPoolExecutor notices a worker that dies (segfault in a C extension, OOM kill): the cases that were
+        # not finished are reported as harness errors instead of hanging the check
+        from concurrent.futures import ProcessPoolExecutor, as_completed
+        from concurrent.futures.process import BrokenProcessPool
+
         ctxm = mp.get_context("fork")
-        with ctxm.Pool(jobs, initializer=_worker_init, initargs=(check_name, tier), maxtasksperchild=None) as pool:
-            for r in pool.imap_unordered(_worker_run, cases, chunksize=1):
-                results.append(r)
+        pending = list(cases)
+        attempt = 0
+        while pending and attempt < 3:
+            attempt += 1
+            done_names = set()
+            try:
+                with ProcessPoolExecutor(max_workers=min(jobs, len(pending)), mp_context=ctxm, initializer=_worker_init,
+                                         initargs=(check_name, tier)) as ex:
+                    futs = {ex.submit(_worker_run, c): c for c in pending}
+                    for f in as_completed(futs):
+                        r = f.result()
+                        results.append(r)
+                        done_names.add(r["name"])
+            except BrokenProcessPool:
+                pass
+            pending = [c for c in pending if c["name"] not in done_names]
+            if pending and attempt >= 2:
+                # second failure: run the remaining cases one per fresh process to isolate the crashing one
+                for c in pending:
+                    try:
+                        with ProcessPoolExecutor(max_workers=1, mp_context=ctxm, initializer=_worker_init, initargs=(check_name, tier)) as ex1:
+                            results.append(ex1.submit(_worker_run, c).result())
+                    except BrokenProcessPool:
+                        results.append({"name": c["name"], "stats": None, "candidates": [], "samples": [], "notes": [], "complete": False,
+                                        "error": "worker process died while running this case (crash of a C extension or out of memory)",
+                                        "extra": {}, "wall": 0.0})
+                pending = []
     results.sort(key=lambda r: r["name"])
 
     # merge
